@@ -61,18 +61,30 @@ def bytes_to_blocks(
 
     # Record each type of arg, as we find it, so we know which ones are missing at the
     # end and which are in the wrong order
-    found_names = ToArgs(names)
+    parsed_bytes = list(_parse_bytes(b))
+
+    def uses(opcodes: list[int], n: int) -> list[int]:
+        # The indices used by the instructions with these opcodes, in order
+        return [arg for opcode, arg, *_ in parsed_bytes if opcode in opcodes and arg < n]
+
+    found_names = ToArgs(names, _uses=uses(dis.hasname, len(names)))
     # We count all the arg names as "found", since we will always preserve them in the
     # args
-    found_varnames = ToArgs(varnames, {i: i for i in range(len(args.parameters))})
-    found_cellvars = ToArgs(cellvars)
-    found_constants = ToArgs(constants)
+    found_varnames = ToArgs(
+        varnames,
+        {i: i for i in range(len(args.parameters))},
+        _uses=uses(dis.haslocal, len(varnames)),
+    )
+    found_cellvars = ToArgs(cellvars, _uses=uses(dis.hasfree, len(cellvars)))
+    found_constants = ToArgs(
+        constants, _uses=uses(dis.hasconst, len(constants)), _key_fn=constant_key
+    )
 
     # If we have a function block and a docstring, the first constant is the docstring.
     if isinstance(block_type, Function) and block_type.docstring is not None:
         found_constants.found_index(0)
 
-    for opcode, arg, n_args, offset, next_offset in _parse_bytes(b):
+    for opcode, arg, n_args, offset, next_offset in parsed_bytes:
 
         # Compute the jump targets, initially with just the byte offset
         # Once we know all the block targets, we will transform to be block offsets
@@ -376,11 +388,32 @@ class ToArgs(Generic[T]):
     # Mapping of the actual index argument to the position it was
     # found
     _index_to_order: dict[int, int] = field(default_factory=dict)
+    # The indices used by the instructions, in order
+    _uses: list[int] = field(default_factory=list)
+    # Function to tell if two args are the same, when encoding them again
+    _key_fn: Callable[[T], Hashable] = field(default=lambda arg: arg)
+
+    def __post_init__(self) -> None:
+        # If the same arg is in the args multiple times, and one is used after a
+        # different one, then its index needs to be saved, to tell them apart.
+        self._ambiguous: set[int] = set()
+        if len(set(map(self._key_fn, self._args))) == len(self._args):
+            return
+        used = {*self._index_to_order, *self._uses}
+        unused = [i for i in range(len(self._args)) if i not in used]
+        last_index: dict[Hashable, int] = {}
+        for i in (*self._index_to_order, *self._uses, *unused):
+            key = self._key_fn(self._args[i])
+            if last_index.setdefault(key, i) != i:
+                self._ambiguous.add(i)
+                last_index[key] = i
 
     def found_index(self, index: int) -> tuple[T, Optional[int]]:
         if index not in self._index_to_order:
-            self._index_to_order[index] = len(self._args)
-        wrong_position = self._index_to_order[index] != index
+            self._index_to_order[index] = len(self._index_to_order)
+        wrong_position = (
+            self._index_to_order[index] != index or index in self._ambiguous
+        )
         return self._args[index], index if wrong_position else None
 
     def __len__(self) -> int:
